@@ -133,7 +133,10 @@ def run_case(case, rng):
     if long_walk:
         alpha, eps, temp, episodes = 0.5, 1.0, 0.0, 1
     seed = rng.choice([0, 1, 7, rng.randrange(2 ** 31)])
-    if rng.random() < 0.5:
+    ruled_out = (not near_tie) and (not long_walk) and rng.random() < 0.12
+    if ruled_out:
+        eps, temp = 0.0, 0.0          # a greedy learner whose initial table rules some actions out (-inf), whichever learner it is
+    if rng.random() < 0.5 and not ruled_out:
         q0c = rng.choice([0.0, 1.0, -2.0, 10.0])
         initial_q = q0c
         q0 = lambda s, a: q0c
